@@ -1,9 +1,11 @@
 import PdtVerif.Lemmas.Slicing
+import PdtVerif.Lemmas.SlicingAli
 /-!
 # C10 — slicing policies yield the documented windows; token chunks are slice-relative
 
 Property theorems only. `Model/Slicing.lean` is the tensor-style model of the (repaired) code,
-`Spec/SlicePolicy.lean` the declarative policies, `Lemmas/Slicing.lean` the helper lemmas.
+`Spec/SlicePolicy.lean` the declarative policies, `Lemmas/Slicing.lean` and `Lemmas/SlicingAli.lean`
+(policy 'ali', the directory-level worker) the helper lemmas.
 All statements are for every batch size, padded length, lobe size and input.
 -/
 namespace PdtVerif.Slicing
@@ -200,14 +202,93 @@ theorem C10_valid_inside_ref (T lobe : Nat) (wt : WinType) (rows : List (List To
   rw [C10_ref T lobe wt true rows inLens otherLens hrows hin hother] at hw
   exact ref_spec_inside lobe wt rows _ _ w hw
 
-/- TARGET (not proved): C10_valid_inside for 'ali' on the whole branch,
-     ∀ w ∈ aliBatch T lobe wt true rows inLens, Inside w (len w.src)
-   for rows of width `T` and `0 ≤ in_lens ≤ T`. What is missing is the lemma that the two
-   `nonzero` calls produce run lists satisfying `RunsWf` (run `i` starts before run `j ≥ i` of the
-   same sequence ends; no run ends beyond its sequence). That lemma is only checked by the
-   correspondence (exhaustively for T ≤ 7 over two labels, every length, batches). -/
+/-! ## policy 'ali' -/
 
-/-- **C10_valid_inside_ali_partial**: the lobe index arithmetic on the batch-flattened run lists
+/-- **C10_ali**: for every batch of alignment rows of width `T`, with `in_lens` given (in-domain:
+`0 ≤ in_lens ≤ T`) or omitted, every lobe size, window type and BOTH validity settings, the code
+path — neighbour mask, the two `nonzero` calls on `cat([nonempty, mask])` and
+`cat([0, mask, 0]) | (nonempty & in_lens == arange)` over the whole batch, then either the two
+shifted views `[: NN - offs]` / `[offs :]` with the `is_same` mask (valid-only) or the `start_idx` /
+`end_idx` vectors updated `lobe_size` times and gathered with Python index semantics (not
+valid-only) — returns exactly the windows of the documented policy: for each sequence, in batch
+order, window `m` runs from the start of run `m - lobe` to the end of run `m + lobe` of the first
+`in_lens` labels (dropped, resp. clipped to the first / last run, when such a run does not exist),
+labelled with its batch element. -/
+theorem C10_ali (T lobe : Nat) (wt : WinType) (vo : Bool) (rows : List (List Int))
+    (inLens : Option (List Int)) (hrows : ∀ r ∈ rows, r.length = T)
+    (hin : ∀ l, inLens = some l → l.length = rows.length ∧ ∀ x ∈ l, 0 ≤ x ∧ x ≤ (T : Int)) :
+    aliBatch T lobe wt vo rows inLens = SlicePolicy.ali lobe wt vo rows (lensOf T rows.length inLens) :=
+  aliBatch_eq T lobe wt vo rows inLens hrows (fun l hl => (hin l hl).2)
+
+/-- The same through the entry point (`T = 0` returns nothing before anything is looked at). -/
+theorem C10_ali_entry (N T lobe : Nat) (wt : WinType) (vo : Bool) (rows : List (List Int))
+    (inLens otherLens : Option (List Int)) (hN : rows.length = N) (hT : T ≠ 0)
+    (hrows : ∀ r ∈ rows, r.length = T)
+    (hin : ∀ l, inLens = some l → l.length = N ∧ ∀ x ∈ l, 0 ≤ x ∧ x ≤ (T : Int)) :
+    sliceSpectData (.ali N T rows) inLens otherLens wt vo lobe =
+      .ok (SlicePolicy.ali lobe wt vo rows (lensOf T N inLens)) :=
+  sliceSpectData_ali_eq N T lobe wt vo rows inLens otherLens hN hT hrows hin
+
+/-- **C10_order_source** for `'ali'`: the returned sources are non-decreasing (sequences in batch
+order) and the windows labelled `n` are exactly the policy's windows of sequence `n`, in order. -/
+theorem C10_order_source_ali (T lobe : Nat) (wt : WinType) (vo : Bool) (rows : List (List Int))
+    (inLens : Option (List Int)) (hrows : ∀ r ∈ rows, r.length = T)
+    (hin : ∀ l, inLens = some l → l.length = rows.length ∧ ∀ x ∈ l, 0 ≤ x ∧ x ≤ (T : Int)) :
+    ((aliBatch T lobe wt vo rows inLens).map (·.src)).Pairwise (· ≤ ·) ∧
+    ∀ n, n < rows.length →
+      (aliBatch T lobe wt vo rows inLens).filter (fun w => w.src == n) =
+        (aliRow lobe wt vo (rows.getD n []) ((lensOf T rows.length inLens).getD n 0)).map
+          fun w => ⟨w.1, w.2, n⟩ := by
+  rw [C10_ali T lobe wt vo rows inLens hrows hin]
+  unfold SlicePolicy.ali
+  rw [labelRows_eq_labelFrom]
+  refine ⟨labelFrom_sorted 0 _, ?_⟩
+  intro n hn
+  have hlen : (lensOf T rows.length inLens).length = rows.length := by
+    cases inLens with
+    | none => simp [lensOf]
+    | some l => simp [lensOf, (hin l rfl).1]
+  have hn2 : n < (lensOf T rows.length inLens).length := by omega
+  have := labelFrom_filter 0 (List.zipWith (aliRow lobe wt vo) rows (lensOf T rows.length inLens)) n
+    (by simp; omega)
+  simp only [Nat.zero_add] at this
+  rw [this]
+  simp [List.getD_eq_getElem?_getD, List.getElem?_zipWith, List.getElem?_eq_getElem hn,
+    List.getElem?_eq_getElem hn2]
+
+example : SlicePolicy.ali 1 .symmetric false [[1, 1, 2, 5], [3, 3, 3, 4]] [4, 3] =
+    [⟨0, 3, 0⟩, ⟨0, 4, 0⟩, ⟨2, 4, 0⟩, ⟨0, 3, 1⟩] := by decide
+example : aliBatch 4 1 .symmetric false [[1, 1, 2, 5], [3, 3, 3, 4]] (some [4, 3]) =
+    [⟨0, 3, 0⟩, ⟨0, 4, 0⟩, ⟨2, 4, 0⟩, ⟨0, 3, 1⟩] := by decide
+
+/-- **C10_valid_inside** ('ali'), unconditional: every valid-only window of the whole branch lies
+inside its sequence, `0 ≤ start < end ≤ in_lens[src]` (`T` when lengths are omitted). -/
+theorem C10_valid_inside_ali (T lobe : Nat) (wt : WinType) (rows : List (List Int))
+    (inLens : Option (List Int)) (hrows : ∀ r ∈ rows, r.length = T)
+    (hin : ∀ l, inLens = some l → l.length = rows.length ∧ ∀ x ∈ l, 0 ≤ x ∧ x ≤ (T : Int))
+    (w : Win) (hw : w ∈ aliBatch T lobe wt true rows inLens) :
+    w.src < rows.length ∧ Inside w ((lensOf T rows.length inLens).getD w.src 0 : Nat) := by
+  rw [C10_ali T lobe wt true rows inLens hrows hin] at hw
+  obtain ⟨h1, _, h3⟩ := ali_spec_inside lobe wt rows _ w hw
+  refine ⟨h1, ?_⟩
+  unfold Inside at h3 ⊢
+  omega
+
+/-- **C10_ali_runs_wf**: the missing half of `C10_valid_inside_ali_partial` — the run lists the two
+`nonzero` calls return for a batch (sources, starts, ends) satisfy `RunsWf`: run `i` starts before
+run `j ≥ i` of the same sequence ends, and no run ends beyond `in_lens` of its sequence. -/
+theorem C10_ali_runs_wf (T : Nat) (rows : List (List Int)) (inLens : Option (List Int))
+    (hrows : ∀ r ∈ rows, r.length = T)
+    (hin : ∀ l, inLens = some l → l.length = rows.length ∧ ∀ x ∈ l, 0 ≤ x ∧ x ≤ (T : Int)) :
+    let masks := List.zipWith (fun row len => aliMasks T row len) rows (lensOpt rows.length inLens)
+    RunsWf (fun n => (((lensOf T rows.length inLens).getD n 0 : Nat) : Int))
+      ((nonzero2From 0 (masks.map (·.1))).map (·.1)) ((nonzero2From 0 (masks.map (·.1))).map (·.2))
+      ((nonzero2From 0 (masks.map (·.2))).map (·.2)) :=
+  aliBatch_runsWf T rows inLens hrows (fun l hl => (hin l hl).2)
+
+/-- **C10_valid_inside_ali_partial** (kept: the statement about the index arithmetic alone; its
+hypothesis is discharged for the code's run lists by `C10_ali_runs_wf`, and `C10_valid_inside_ali`
+is the unconditional clause): the lobe index arithmetic on the batch-flattened run lists
 (the two shifted views `[: NN - offs]`, `[offs :]` and the `is_same` mask, for every lobe, window
 type and batch) only produces windows inside their sequence, *provided* the run lists are
 well-formed (`RunsWf`). -/
@@ -237,5 +318,114 @@ example : aliBatch 10 1 .causal false [[1, 1, 1, 1, 2, 2, 2, 1, 5, 5]] none =
     [⟨0, 4, 0⟩, ⟨0, 7, 0⟩, ⟨4, 8, 0⟩, ⟨7, 10, 0⟩] := by decide
 example : SlicePolicy.ali 1 .future false [[1, 1, 1, 1, 2, 2, 2, 1, 5, 5]] [10] =
     [⟨0, 7, 0⟩, ⟨4, 8, 0⟩, ⟨7, 10, 0⟩, ⟨8, 10, 0⟩] := by decide
+
+/-! ## the consequence clause: chunking a data directory, utterance by utterance
+
+`dirChunks` is the model of `_chunk_torch_spect_data_dir_do_work` (slicer on the unsqueezed
+utterance, then the token chunker on the utterance's tokens expanded against its `M` slices; chunk
+`n` is written under slice `n`'s name). `dirSpec` is the specification: one chunk per window the
+policy prescribes, holding the utterance's tokens restricted to that window. Features and
+alignments go through `ChunkBySlices` (property C09) and are checked at directory level only. -/
+
+/-- **C10_dir**: for every well-formed, non-empty utterance, policy, window type, validity, lobe
+and token options, the worker writes exactly one chunk per window the policy prescribes for the
+utterance taken alone, in the policy's order, and the tokens of the chunk are the utterance's
+tokens with known segments contained in (overlapping, if `partial`) the window, in order, each
+passed through the code's `shiftTok`. -/
+theorem C10_dir (policy : Policy) (wt : WinType) (vo : Bool) (lobe : Nat) (p retain : Bool) (u : Utt)
+    (hali : u.ali.length = u.T) (hne : if policy = .ref then u.ref ≠ [] else u.T ≠ 0) :
+    dirChunks policy wt vo lobe p retain u =
+      .ok ((dirWindows policy lobe wt vo u).map fun w =>
+        (w, (tokensKept p u.ref (w.start, w.stop) none).map (shiftTok retain w.start))) :=
+  dirChunks_eq policy wt vo lobe p retain u hali hne
+
+/-- An utterance without frames (without tokens, for `'ref'`) yields no chunk. -/
+theorem C10_dir_empty (policy : Policy) (wt : WinType) (vo : Bool) (lobe : Nat) (p retain : Bool) (u : Utt)
+    (he : if policy = .ref then u.ref = [] else u.T = 0) :
+    dirChunks policy wt vo lobe p retain u = .ok [] :=
+  dirChunks_empty policy wt vo lobe p retain u he
+
+/-- **C10_dir_retain_partial**: with `--retain-token-boundaries` every written chunk is exactly
+the specified one — the source restricted to its window. (The restriction `retain = true` is
+forced by the known finding below.) -/
+theorem C10_dir_retain_partial (policy : Policy) (wt : WinType) (vo : Bool) (lobe : Nat) (p : Bool) (u : Utt)
+    (hali : u.ali.length = u.T) (hne : if policy = .ref then u.ref ≠ [] else u.T ≠ 0) :
+    dirChunks policy wt vo lobe p true u = .ok (dirSpec policy lobe wt vo p true u) := by
+  rw [C10_dir policy wt vo lobe p true u hali hne]
+  unfold dirSpec tokensRow
+  congr 1
+
+/-- **C10_dir_plus_start**: without `--retain-token-boundaries` the windows, the kept tokens and
+their order are as specified, but every boundary is `in + start` instead of `in - start`: the
+written chunk is the specified chunk with `2·start` added to both boundaries (the known finding
+`C10.tokens.boundaries_plus_start` at directory level) … -/
+theorem C10_dir_plus_start (policy : Policy) (wt : WinType) (vo : Bool) (lobe : Nat) (p : Bool) (u : Utt)
+    (hali : u.ali.length = u.T) (hne : if policy = .ref then u.ref ≠ [] else u.T ≠ 0) :
+    dirChunks policy wt vo lobe p false u =
+      .ok ((dirSpec policy lobe wt vo p false u).map fun c =>
+        (c.1, c.2.map fun tk => (tk.1, tk.2.1 + 2 * c.1.start, tk.2.2 + 2 * c.1.start))) := by
+  rw [C10_dir policy wt vo lobe p false u hali hne]
+  unfold dirSpec tokensRow
+  simp only [List.map_map, Function.comp_def]
+  congr 1
+  apply List.map_congr_left
+  intro w _
+  congr 1
+  apply List.map_congr_left
+  intro tk _
+  simp only [shiftTok, relTok, Bool.false_eq_true, if_false]
+  refine Prod.ext rfl (Prod.ext ?_ ?_) <;> simp only <;> omega
+
+/-- … so a chunk is as specified exactly when its window starts at frame 0 or it holds no token
+(`C10_tokens_relative_iff`); in particular the whole chunked utterance is as specified when every
+window starts at 0. -/
+theorem C10_dir_relative_iff (policy : Policy) (wt : WinType) (vo : Bool) (lobe : Nat) (p : Bool) (u : Utt)
+    (hali : u.ali.length = u.T) (hne : if policy = .ref then u.ref ≠ [] else u.T ≠ 0) :
+    dirChunks policy wt vo lobe p false u = .ok (dirSpec policy lobe wt vo p false u) ↔
+      ∀ w ∈ dirWindows policy lobe wt vo u, w.start = 0 ∨ tokensKept p u.ref (w.start, w.stop) none = [] := by
+  rw [C10_dir policy wt vo lobe p false u hali hne]
+  unfold dirSpec tokensRow
+  constructor
+  · intro h w hw
+    have h' := Except.ok.inj h
+    have := List.map_inj_left.mp h' w hw
+    simp only [Prod.mk.injEq, true_and] at this
+    exact (C10_tokens_relative_iff w.start _).mp this
+  · intro h
+    congr 1
+    apply List.map_congr_left
+    intro w hw
+    rw [(C10_tokens_relative_iff w.start _).mpr (h w hw)]
+
+/-- Valid-only (no `--pad-mode`): every written chunk's window lies inside the utterance —
+`0 ≤ start < end ≤ T` for `'fixed'` and `'ali'`, `≤` the end of the last token for `'ref'`. -/
+theorem C10_dir_valid_inside (policy : Policy) (wt : WinType) (lobe : Nat) (u : Utt) (hali : u.ali.length = u.T)
+    (w : Win) (hw : w ∈ dirWindows policy lobe wt true u) :
+    Inside w (match policy with
+      | .ref => refOther u.ref u.ref.length
+      | _ => (u.T : Int)) := by
+  cases policy
+  · have := fixed_spec_inside lobe wt [u.T] w hw
+    have h0 : w.src = 0 := by have := this.1; simp at this; omega
+    have h2 := this.2
+    rw [h0] at h2
+    simpa using h2
+  · obtain ⟨h1, _, h3⟩ := ali_spec_inside lobe wt [u.ali] [u.T] w hw
+    have h0 : w.src = 0 := by simp at h1; omega
+    rw [h0] at h3
+    simp only [List.getD_cons_zero, hali, Nat.min_self] at h3
+    exact h3
+  · have := ref_spec_inside lobe wt [u.ref] [u.ref.length] [none] w hw
+    have h0 : w.src = 0 := by have := this.1; simp at this; omega
+    have h2 := this.2
+    rw [h0] at h2
+    simpa using h2
+
+example : dirChunks .fixed .causal true 2 false true ⟨6, [0, 0, 1, 1, 1, 2], [(7, 0, 2), (8, 2, 5), (9, 5, 6)]⟩ =
+    .ok [(⟨0, 3, 0⟩, [(7, 0, 2)]), (⟨3, 6, 0⟩, [(9, 5, 6)])] := by rfl
+example : dirChunks .ali .symmetric false 0 true false ⟨6, [0, 0, 1, 1, 1, 2], [(7, 0, 2), (8, 2, 5), (9, 5, 6)]⟩ =
+    .ok [(⟨0, 2, 0⟩, [(7, 0, 2)]), (⟨2, 5, 0⟩, [(8, 4, 7)]), (⟨5, 6, 0⟩, [(9, 10, 11)])] := by rfl
+example : dirSpec .ali 0 .symmetric false true false ⟨6, [0, 0, 1, 1, 1, 2], [(7, 0, 2), (8, 2, 5), (9, 5, 6)]⟩ =
+    [(⟨0, 2, 0⟩, [(7, 0, 2)]), (⟨2, 5, 0⟩, [(8, 0, 3)]), (⟨5, 6, 0⟩, [(9, 0, 1)])] := by decide
 
 end PdtVerif.Slicing
